@@ -123,9 +123,17 @@ def handleNormalise (j : Json) : Except String Json := do
   | .error e => pure (jErr (errName e))
   | .ok out => pure (jOk (Json.arr (out.toArray.map jFloat)))
 
+/-- {"op":"mean","len":N,"shots":k,"results":[[bits…],…]} → {"ok":[bits…]} -/
+def handleMean (j : Json) : Except String Json := do
+  let len ← getNat j "len"
+  let shots ← getNat j "shots"
+  let results ← (← getArr j "results").toList.mapM fun r => do (← r.getArr?).toList.mapM floatOfJson
+  pure (jOk (Json.arr ((meanOfShots floatNum len (Float.ofNat shots) results).toArray.map jFloat)))
+
 end C14
 
 def c14Handlers : List (String × (Json → Except String Json)) :=
-  [("run", C14.handleRun), ("measurament", C14.handleMeasurament), ("normalise", C14.handleNormalise)]
+  [("run", C14.handleRun), ("measurament", C14.handleMeasurament), ("normalise", C14.handleNormalise),
+   ("mean", C14.handleMean)]
 
 end QG.Driver
